@@ -157,6 +157,27 @@ def check_accepted_combinations(w, rep, modname, fn, call):
             bad = contract(gens[0].opts)
             rep.check("C09.options", "%s: accepted keyword with_mem=True still satisfies CasADi's contract" % label, not bad,
                       "the generator accepts with_mem=True but CasADi then refuses: %s" % "; ".join(bad), where=where)
+        # every combination of the boolean options that the contract or the derived keys can depend on
+        import itertools
+        keys = [k for k in ("with_mem", "with_header", "main", "mex") if k in d]
+        worst = None
+        n = 0
+        for vals in itertools.product((False, True), repeat=len(keys)):
+            kw = dict(zip(keys, vals))
+            before = len(cm.CodeGeneratorVal.registry)
+            try:
+                call(kw)
+            except (InterpRaise, Unsupported) as ex:
+                worst = worst or (kw, ["generator raised: %s" % ex])
+                continue
+            gs = cm.CodeGeneratorVal.registry[before:]
+            n += 1
+            if gs:
+                bad = contract(gs[0].opts)
+                if bad and worst is None:
+                    worst = (kw, bad)
+        rep.check("C09.options", "%s: all %d combinations of %s satisfy CasADi's contract" % (label, 2 ** len(keys), "/".join(keys)), worst is None,
+                  "with %s CasADi refuses the options the generator builds: %s" % (worst[0] if worst else "", "; ".join(worst[1]) if worst else ""), where=where, fact={"combinations": n})
     ok, gens = run_generator(w, rep, "C09.options", "%s(bogus=1)" % label, lambda: call({"definitely_not_an_option": True}), where) if False else (True, [])
 
 
